@@ -190,6 +190,8 @@ class Engine:
             self._dpos = 0
             self._work = work
             self.st = State()
+            V.ON_PRODUCT[0] = self.note_product
+            V.ON_DIV[0] = self.div_elim
             self.stats["paths"] += 1
             if self.stats["paths"] > max_paths:
                 raise Unsupported("path explosion")
@@ -201,6 +203,48 @@ class Engine:
             except PyRaise as e:
                 results.append(PathResult(list(self._decisions), "raise", None, self.st, e))
         return results
+
+    # ---------------------------------------------------- nonlinear arithmetic
+    def note_product(self, x, y, t, one_way=False):
+        """Lemma instances for a symbolic product t == x*y (valid facts of
+        integer arithmetic): sign rules, and for two products sharing a factor B > 0,
+        x1 < x2  <=>  x1*B < x2*B  (likewise ==)."""
+        prods = self.st.ghost.setdefault("products", [])
+        for (a, B) in (((x, y),) if one_way else ((x, y), (y, x))):
+            key = (a.get_id(), B.get_id())
+            if any(k == key for (k, _, _, _) in prods):
+                continue
+            self.st.pc.append(z3.Implies(B > 0, z3.And((a < 0) == (t < 0), (a == 0) == (t == 0), (a > 0) == (t > 0))))
+            self.st.pc.append(z3.Implies(z3.Or(a == 0, B == 0), t == 0))
+            self.st.pc.append(z3.Implies(B == 1, t == a))
+            for (_, a2, B2, t2) in prods:
+                if B2.eq(B):
+                    self.st.pc.append(z3.Implies(B > 0, z3.And((a < a2) == (t < t2), (a == a2) == (t == t2),
+                                                                (a < a2) == (t + B <= t2), (a2 < a) == (t2 + B <= t))))
+            prods.append((key, a, B, t))
+
+    def div_elim(self, a, b):
+        """a // b and a % b for a symbolic divisor, without z3's div/mod:
+        fresh q, r with a == q*b + r and r in [0,b) (b>0) / (b,0] (b<0)."""
+        cache = self.st.ghost.setdefault("divs", {})
+        key = (a.get_id(), b.get_id())
+        if key in cache:
+            return cache[key]
+        from . import nl
+        qx, ok = nl.exact_div(a, b)
+        if ok:
+            # a == qx*b syntactically: quotient qx, remainder 0 (b != 0 is checked by the caller)
+            cache[key] = (qx, z3.IntVal(0))
+            return cache[key]
+        q = z3.Int(fresh_name("q"))
+        r = z3.Int(fresh_name("r"))
+        qb = q * b
+        self.st.pc.append(a == qb + r)
+        self.st.pc.append(z3.Implies(b > 0, z3.And(r >= 0, r < b)))
+        self.st.pc.append(z3.Implies(b < 0, z3.And(r <= 0, r > b)))
+        self.note_product(q, b, qb)
+        cache[key] = (q, r)
+        return q, r
 
     def feasible(self, extra=None):
         s = self._solver
@@ -697,6 +741,32 @@ class Engine:
     def getattr(self, obj, name, fr=None, node=None):
         if isinstance(obj, Ref):
             return self.getattr_ref(obj, name)
+        if isinstance(obj, SuperVal):
+            mro = self.prog.mro(obj.self_val.cls if isinstance(obj.self_val, Ref) and obj.self_val.cls in self.prog.classes else obj.clsname)
+            if obj.clsname in mro:
+                rest = mro[mro.index(obj.clsname) + 1:]
+            else:
+                rest = self.prog.mro(obj.clsname)[1:]
+            for cn in rest:
+                c = self.prog.classes[cn]
+                if name in c.methods:
+                    return BoundMethod(obj.self_val, c.methods[name])
+                if name in c.properties:
+                    return self.call_value(BoundMethod(obj.self_val, c.properties[name]["get"]), [], {})
+            # base classes outside the package (Exception, Thread, object, dict, ABC)
+            k = ("super", obj.clsname, name)
+            if k in self.lib:
+                return LibCallable("super()." + name, lambda e, a, kw, _f=self.lib[k], _o=obj: _f(e, _o.self_val, a, kw))
+            if name == "__init__":
+                return LibCallable("object.__init__", lambda e, a, kw: None)
+            raise Unsupported("super().%s from %s" % (name, obj.clsname))
+        if isinstance(obj, Builtin) and obj.name == "object" and name == "__setattr__":
+            def _osa(e, a, kw):
+                o, n, v = a
+                e.st.heap[o.oid][n] = v
+                e.st.ghost.setdefault("written", set()).add((o.oid, n))
+                return None
+            return LibCallable("object.__setattr__", _osa)
         if isinstance(obj, ModuleVal):
             d = obj.name + "." + name
             if d in self.lib:
@@ -885,7 +955,7 @@ class Engine:
             if isinstance(op, ast.Mult):
                 if fl:
                     return Fl(self.fmul(a, b))
-                return a * b
+                return imul(a, b)
             if isinstance(op, ast.Div):
                 if self.decide(self.num_eq0(b)):
                     raise PyRaise("ZeroDivisionError", (), node)
@@ -1709,6 +1779,11 @@ class Engine:
         raise Unsupported("method %s on %s" % (name, kind_of(obj)))
 
     def bytes_join(self, sep, parts):
+        h = self.st.ghost.get("bytes_join_any")
+        if h is not None:
+            r = h(self, sep, parts)
+            if r is not NotImplemented:
+                return r
         if isinstance(parts, GenVal):
             parts = self.gen_to_list(parts)
         if isinstance(parts, (tuple, list)):
